@@ -982,7 +982,7 @@ static carquet_status_t load_next_page_mmap(
     }
 
     size_t values_buffer_size = value_size * (size_t)num_values;
-    if ((size_t)num_values > reader->decoded_capacity) {
+    if ((size_t)num_values > reader->decoded_capacity || !reader->decoded_values) {
         free(reader->decoded_values);
         free(reader->decoded_def_levels);
         free(reader->decoded_rep_levels);
@@ -1163,7 +1163,7 @@ static carquet_status_t load_next_page_fread(
     size_t values_buffer_size = value_size * (size_t)num_values;
 
     /* Ensure we have enough buffer capacity */
-    if ((size_t)num_values > reader->decoded_capacity) {
+    if ((size_t)num_values > reader->decoded_capacity || !reader->decoded_values) {
         free(reader->decoded_values);
         free(reader->decoded_def_levels);
         free(reader->decoded_rep_levels);
@@ -1310,8 +1310,9 @@ carquet_status_t carquet_read_next_page(
         return CARQUET_ERROR_INVALID_ARGUMENT;
     }
 
-    /* Load a new page if needed */
-    if (!reader->page_loaded || reader->page_values_read >= reader->page_num_values) {
+    /* Load a new page if needed. A data page may hold no values at all
+     * (num_values = 0): such a page is passed over. */
+    while (!reader->page_loaded || reader->page_values_read >= reader->page_num_values) {
         /* If we had a previous page, advance past it */
         if (reader->page_loaded) {
             reader->current_page += reader->page_header_size + reader->page_compressed_size;
